@@ -141,6 +141,21 @@ def work(item):
             acc.query(prover, topo, f"casadi[{tag}/c{c}]", f"level {c} entry {slot} == level 0 entry", s.t == c0.slot[slot].t, D, (), on_sat)
         if set(levels[c].slot) != set(c0.slot):
             acc.exec_violation(PID, topo, f"casadi[{tag}/c{c}]", "array", f"level {c} entries differ from level 0 entries", extra={"numeric": numeric})
+    # ---- distinct elements that share a name: every level must still have one argument per independent variable
+    if bits == 0 and pmode == "all":
+        def samename(s_):
+            return {"L": "seg", "O": "od", "D": "od"}.get(s_[0], s_) if s_ not in topo.nodes else s_
+        for c in (0, 1, 2):
+            ex["structural_facts"] += 1
+            try:
+                F, b2, P2, decl2 = runs.cas_function(topo, symtype, numeric, c, more_out, None, declare=declare, rename=samename)
+                ins2, outs2 = layout.expected(topo, b2, c, list(decl2), more_out)
+                got = [F.size1_in(i) * F.size2_in(i) for i in range(F.n_in())]
+                if got != [len(z) for _, z in ins2] or F.has_free():
+                    acc.exec_violation(PID, topo, f"casadi[{tag}/c{c}/same-names]", "array", f"with equally named elements the arguments have sizes {got}, the network's variables {[len(z) for _, z in ins2]}",
+                                       extra={"numeric": numeric})
+            except Exception as e:  # noqa
+                acc.exec_violation(PID, topo, f"casadi[{tag}/c{c}/same-names]", "array", f"compile raised {type(e).__name__} when distinct elements share a name: {str(e)[:160]}", extra={"numeric": numeric})
     # ---- a network stepped a second time with user-supplied symbols given speed-first: arguments and results must still pair up
     if bits == 0 and pmode == "none":
         import casadi as cs
